@@ -63,3 +63,55 @@ pub fn append_provider_cursor_updated(
         },
     )
 }
+
+pub use crate::checkpoints::WorkspaceCheckpointHook;
+pub use crate::provider_openresponses::OpenResponsesConfig;
+
+/// The daemon's router with an explicit workspace root, provider configuration and task policy.
+pub fn build_router(
+    data_dir: std::path::PathBuf,
+    workspace_root: std::path::PathBuf,
+    openresponses: Option<OpenResponsesConfig>,
+    allow_pty_tasks: bool,
+) -> axum::Router {
+    crate::server::build_app_with_workspace_root_and_provider_and_task_policy(
+        data_dir,
+        workspace_root,
+        openresponses,
+        allow_pty_tasks,
+    )
+}
+
+/// `RIP_OPENRESPONSES_TOOL_CHOICE` parser.
+pub fn parse_tool_choice(
+    value: &str,
+) -> Result<rip_provider_openresponses::ToolChoiceParam, String> {
+    crate::provider_openresponses::parse_tool_choice_env(value)
+}
+
+/// Provider response chunks through the real SSE pipe; see `session::verif_openresponses_pipe_frames`.
+pub async fn openresponses_pipe_frames(
+    session_id: &str,
+    seq_start: u64,
+    chunks: &[Vec<u8>],
+    compat_missing_item_ids: bool,
+    event_log: &EventLog,
+) -> (Vec<rip_kernel::Event>, u64, bool) {
+    crate::session::verif_openresponses_pipe_frames(
+        session_id,
+        seq_start,
+        chunks,
+        compat_missing_item_ids,
+        event_log,
+    )
+    .await
+}
+
+/// The server's authority acquisition loop (stale / corrupt lock recovery included).
+#[cfg(not(test))]
+pub async fn acquire_authority_lock_with_recovery(
+    data_dir: &Path,
+    workspace_root: &Path,
+) -> Result<crate::AuthorityLockGuard, String> {
+    crate::server::verif_acquire_authority_lock_with_recovery(data_dir, workspace_root).await
+}
